@@ -822,9 +822,8 @@ impl Service<Vec<u8>, ()> for OptSvc {
 
 /// The mandatory middleware alone in front of a service that attaches an OPT record to every
 /// response: a requester that sent no OPT record never gets more than 512 octets (RFC 1035 4.2.1),
-/// whatever the response carries. (Honouring the size an EDNS requester advertises is the job of
-/// the EDNS middleware, which this stack leaves out; EDNS requests are only judged for being
-/// answered once, with their ID and question, and not above the configured limit.)
+/// whatever the response carries, and one that did never gets more than it advertised or the
+/// server is configured for.
 fn udp_bare_case(c: &mut Ctx, fam: &str, idx: u64) {
     let mut rng = c.case_rng(fam, idx);
     let configured = *rng.pick(&[Some(512u16), Some(1232), Some(1232), Some(4096), None]);
@@ -832,7 +831,7 @@ fn udp_bare_case(c: &mut Ctx, fam: &str, idx: u64) {
     let mut reqs: Vec<(Req, SocketAddr)> = Vec::new();
     for k in 0..n {
         let addr: SocketAddr = format!("192.0.2.{}:{}", 1 + rng.below(200), 2048 + k).parse().unwrap();
-        let edns = *rng.pick(&[None, None, None, Some(512u16), Some(1232), Some(4096)]);
+        let edns = *rng.pick(&[None, None, None, Some(0u16), Some(512), Some(600), Some(1232), Some(4096)]);
         let per = 41 + 10 + (3 + format!("q{}", k).len() + 1 + 6);
         let target = *rng.pick(&[100usize, 480, 500, 512, 540, 700, 1200, 1232, 1260, 4000, 4200]);
         let label = format!("s{}", (target / per).max(1) + rng.below(2));
@@ -902,14 +901,13 @@ fn udp_bare_case(c: &mut Ctx, fam: &str, idx: u64) {
                 }
                 c.count(if tc { "udp_bare_no_edns_truncated" } else { "udp_bare_no_edns_complete" }, 1);
             }
-            Some(_) => {
-                if let Some(cfgd) = configured {
-                    if m.len() > (cfgd as usize).max(512) {
-                        c.violation("udp-size:bare:above-configured", &format!("a UDP response of {} octets; the configured maximum is {}", m.len(), cfgd), rp(c, json!({"response_len": m.len()})));
-                        return;
-                    }
+            Some(sz) => {
+                let limit = udp_limit(r.edns, configured);
+                if m.len() > limit {
+                    c.violation("udp-size:edns:mandatory-middleware-alone", &format!("a UDP response of {} octets (TC {}) to a request advertising an EDNS size of {}; the limit is {} (configured maximum {:?}); no EDNS middleware is in the chain", m.len(), tc, sz, limit, configured), rp(c, json!({"response_len": m.len()})));
+                    return;
                 }
-                c.count("udp_bare_edns_requests_size_not_judged_against_requester", 1);
+                c.count(if tc { "udp_bare_edns_truncated" } else { "udp_bare_edns_complete" }, 1);
             }
         }
         c.eval(&("udp-bare", r.edns, configured, tc, m.len() / 128));
